@@ -391,6 +391,31 @@ pub open spec fn purge_spec(t: Tables, x: Ptr) -> Tables {
     Map::new(t.dom().remove(x), |p: Ptr| t[p].remove(fl(x)).remove(bl(x)))
 }
 
+/// the two halves of adopt / unadopt commute (they touch different keys), so the order in which the code
+/// records them does not matter
+pub proof fn lemma_adopt_spec_commutes(t: Tables, a: Ptr, b: Ptr)
+    requires t.contains_key(a), t.contains_key(b),
+    ensures
+        adopt_spec(t, a, b) == ({ let t1 = t.insert(b, bump(t[b], bl(a))); t1.insert(a, bump(t1[a], fl(b))) }),
+        unadopt_spec(t, a, b) == ({ let t1 = t.insert(b, unbump(t[b], bl(a))); t1.insert(a, unbump(t1[a], fl(b))) }),
+{
+    assert(fl(b) != bl(a));
+    let t1 = t.insert(b, bump(t[b], bl(a)));
+    let r1 = t1.insert(a, bump(t1[a], fl(b)));
+    let s1 = t.insert(a, bump(t[a], fl(b)));
+    if a == b {
+        assert(bump(t1[a], fl(b)) =~= bump(s1[b], bl(a)));
+    }
+    assert(r1 =~= adopt_spec(t, a, b));
+    let u1 = t.insert(b, unbump(t[b], bl(a)));
+    let r2 = u1.insert(a, unbump(u1[a], fl(b)));
+    let v1 = t.insert(a, unbump(t[a], fl(b)));
+    if a == b {
+        assert(unbump(u1[a], fl(b)) =~= unbump(v1[b], bl(a)));
+    }
+    assert(r2 =~= unadopt_spec(t, a, b));
+}
+
 pub proof fn lemma_cnt_bump(m: Map<Link, usize>, k: Link, j: Link)
     requires cnt(m, k) < usize::MAX,
     ensures cnt(bump(m, k), j) == (if j == k { cnt(m, k) + 1 } else { cnt(m, j) }),
